@@ -115,6 +115,24 @@ def _file_sig(row, lg):
     return "law:file:%s:%s:%s" % ("deltas" if q[6] else "per-file-graph", q[0], klass)
 
 
+def _falsified(rows):
+    """Binding self-test rows: a merged revision dropped from the full listing, a forward listing left in reverse order,
+    a mainline listing with a wrong revno."""
+    import copy
+
+    def find(r, q):
+        return next(lg for lg in r["ob"]["logs"] if lg["q"] == q)
+    r = next((r for r in rows if sum(1 for x in r["ob"]["ms"] if x[2] > 0) >= 1 and sum(1 for x in r["ob"]["ms"] if x[2] == 0) >= 2), None)
+    if r is None:
+        return []
+    a, b, c = copy.deepcopy(r), copy.deepcopy(r), copy.deepcopy(r)
+    full = find(a, ["reverse", 0, 0, 0, 0, 0, 1])["rows"]
+    full.remove(next(x for x in full if x[2] > 0))
+    find(b, ["forward", 0, 0, 0, 0, 0, 1])["rows"] = list(find(b, ["reverse", 0, 0, 0, 0, 0, 1])["rows"])
+    find(c, ["reverse", 1, 0, 0, 0, 0, 1])["rows"][0][1][0] += 1
+    return [("complete", a), ("forward", b), ("mainline", c)]
+
+
 def run(ctx):
     env.init()
     hc.preload()
@@ -148,7 +166,7 @@ def run(ctx):
             ctx.sample({"graph": r["c"]["par"], "tip": r["c"]["t"], "kind": r["kind"],
                         "reverse all levels [rev, revno, depth]": full.get(("reverse", 0)),
                         "forward all levels": full.get(("forward", 0))}, limit=2)
-    for row, v in hc.judge_parallel(ctx, "HistoryC25Trace", rows, chunk=150):
+    for row, v in hc.judge_with_selftest(ctx, "HistoryC25Trace", rows, _falsified(rows), chunk=150):
         c = row["c"]
         logs = row["ob"]["logs"]
         for law in v["failed"]:
